@@ -60,6 +60,19 @@ Record sfield := mkSF5 { sf_name : bytes; sf_kind : ikind; sf_required : bool; s
                          sf_desc : bytes }.      (* the field's `description` ("" = none) *)
 Notation mkSF n k r o := (mkSF5 n k r o []) (only parsing).
 
+(* a field of an inline schema AT ANY DEPTH (`field a object { field b object { .. } field c array:string }`):
+   simple types, arrays / maps of them, and again inline schemas (k: 0 object 1 oneof 2 enum; c: the
+   container as in uf_container).  Used by [KInlineTree]; the flat [sfield] form stays for inline schemas
+   with simple fields only (the acceptance theorems cover the flat form) *)
+Inductive tfield :=
+| TF (name : bytes) (kind : tkind) (required optional : bool) (desc : bytes)
+with tkind :=
+| TK (i : ikind)
+| TKArray (i : ikind)
+| TKMap (i : ikind)
+| TKInline (k : N) (c : N) (fields : list tfield) (options : list bytes).
+Definition tf_name (t : tfield) : bytes := match t with TF n _ _ _ _ => n end.
+
 Inductive fkind :=
 | KScalar (ptype : N) (j5kind : bytes)
 | KObject (name : bytes)                  (* object:<Name>, a reference to a schema of this package *)
@@ -76,7 +89,9 @@ Inductive fkind :=
    nested in the containing message, named ToCamel(field name) *)
 | KInlineObject (fields : list sfield)
 | KInlineOneof (options : list sfield)
-| KInlineEnum (options : list bytes).
+| KInlineEnum (options : list bytes)
+(* an inline object (k = 0) / oneof (k = 1) whose fields are not all simple *)
+| KInlineTree (k : N) (fields : list tfield).
 
 (* uf_desc: the field's `description` ("" = none): a leading comment of the proto field;
    uf_keyfmt: the format of a key-typed field (`key` 0, `key:id62` 1, `key:uuid` 2): written into
@@ -148,7 +163,9 @@ Inductive otype :=
 
 (* a property; its field number is its 1-based position (mapProperties) *)
 (* the definition an inline field carries: kind (as TNested), fields / options, enum options *)
-Record inline_def := mkInl { il_kind : N; il_fields : list sfield; il_options : list bytes }.
+(* il_tree: the fields of an inline schema given as a tree ([] for the flat form, whose fields are il_fields) *)
+Record inline_def := mkInl4 { il_kind : N; il_fields : list sfield; il_options : list bytes; il_tree : list tfield }.
+Notation mkInl k f o := (mkInl4 k f o []) (only parsing).
 
 Record ofield := mkF13 {
   f_json : bytes; f_type : otype; f_repeated : bool; f_required : bool; f_flatten : bool;
@@ -222,6 +239,19 @@ Definition of_sfield (s : sfield) : ofield :=
 (* the type / label / presence of a field whose type is defined inline, by its container *)
 Definition inline_type (c : N) (n : bytes) (k : N) : otype :=
   if c =? 2 then TMap (TNested n k) else TNested n k.
+(* a field of an inline schema of the tree form; the tree below it is carried along in il_tree *)
+Definition of_tfield (t : tfield) : ofield :=
+  match t with
+  | TF n (TK i) r o d =>
+      mkF13 n (otype_of_item i) false r false false None None None o None d 0
+  | TF n (TKArray i) r o d =>
+      mkF13 n (otype_of_item i) true r false false None None None false None d 0
+  | TF n (TKMap i) r o d =>
+      mkF13 n (TMap (otype_of_item i)) true r false false None None None false None d 0
+  | TF n (TKInline k c fs os) r o d =>
+      mkF13 n (inline_type c (to_camel n) k) (negb (c =? 0)) r false false None None None (o && (c =? 0))
+            (Some (mkInl4 k [] os fs)) d 0
+  end.
 Definition of_ufield (u : ufield) : ofield :=
   let d := uf_desc u in
   let c := uf_container u in
@@ -258,15 +288,28 @@ Definition of_ufield (u : ufield) : ofield :=
   | KKey primary foreign tenant =>
       mkF13 (uf_name u) (TScalar 9 (bs "key")) false (uf_required u || primary) false primary tenant None
             foreign (uf_optional u) None d (uf_keyfmt u)
+  | KInlineTree k fs =>
+      mkF13 (uf_name u) (inline_type c (to_camel (uf_name u)) k) (negb (c =? 0)) (uf_required u) false false None None None
+            (uf_optional u && (c =? 0)) (Some (mkInl4 k [] [] fs)) d 0
   end.
 (* buildProperty: "cannot be both required and optional" (a primary key is required) *)
 Definition sfield_ok (s : sfield) : bool := negb (sf_optional s && sf_required s).
+Fixpoint tfield_ok (t : tfield) : bool :=
+  match t with
+  | TF _ k r o _ =>
+      negb (o && r)
+      && match k with
+         | TKInline _ _ fs _ => forallb tfield_ok fs
+         | _ => true
+         end
+  end.
 Definition ufield_ok (u : ufield) : bool :=
   negb (uf_optional u && (uf_required u || match uf_kind u with KKey p _ _ => p | _ => false end))
   (* the fields of an inline object / the options of an inline oneof go through buildProperty too *)
   && match uf_kind u with
      | KInlineObject fs => forallb sfield_ok fs
      | KInlineOneof fs => forallb sfield_ok fs
+     | KInlineTree _ fs => forallb tfield_ok fs
      | _ => true
      end.
 Definition plain_field (name : string) (t : otype) (required : bool) : ofield :=
@@ -557,10 +600,24 @@ Fixpoint ref_resolves (defs : list (bool * bytes)) (t : otype) : bool :=
   end.
 
 (* a field resolves when its type does and, for an inline object / oneof, the types of its own fields do *)
+Fixpoint tfield_resolves (defs : list (bool * bytes)) (t : tfield) : bool :=
+  match t with
+  | TF _ k _ _ _ =>
+      match k with
+      | TK i => ref_resolves defs (otype_of_item i)
+      | TKArray i => ref_resolves defs (otype_of_item i)
+      | TKMap i => ref_resolves defs (otype_of_item i)
+      | TKInline _ _ fs _ =>
+          forallb (tfield_resolves defs) fs
+      end
+  end.
 Definition field_resolves (defs : list (bool * bytes)) (f : ofield) : bool :=
   ref_resolves defs (f_type f)
   && match f_inline f with
-     | Some il => forallb (fun s => ref_resolves defs (otype_of_item (sf_kind s))) (il_fields il)
+     | Some il => match il_tree il with
+                  | [] => forallb (fun s => ref_resolves defs (otype_of_item (sf_kind s))) (il_fields il)
+                  | tfs => forallb (tfield_resolves defs) tfs
+                  end
      | None => true
      end.
 
@@ -674,12 +731,29 @@ Definition fields_scope (is_oneof : bool) (fs : list ofield) : list bytes :=
       else map (fun f => 95 :: proto_name f) (filter f_optional fs))
   ++ entry_names fs.
 (* the scopes of the inline objects / oneofs of a message *)
+(* the scopes of the nested messages of a tree-form inline schema: its own (fields, proto oneof /
+   presence oneofs, entry messages, the names its children define) and, recursively, its children's *)
+Fixpoint tfield_scopes (t : tfield) : list (list bytes) :=
+  match t with
+  | TF _ (TKInline k _ fs _) _ _ _ =>
+      if k =? 2 then []
+      else (fields_scope (k =? 1) (map of_tfield fs) ++ inline_names (map of_tfield fs))
+           :: flat_map tfield_scopes fs
+  | _ => []
+  end.
+Definition tree_scopes (k : N) (fs : list tfield) : list (list bytes) :=
+  (fields_scope (k =? 1) (map of_tfield fs) ++ inline_names (map of_tfield fs))
+  :: flat_map tfield_scopes fs.
 Definition inline_scopes (fs : list ofield) : list (list bytes) :=
   flat_map (fun f => match f_inline f with
-    | Some il => if il_kind il =? 2 then []
-                 else [map proto_name (map of_sfield (il_fields il))
-                       ++ (if il_kind il =? 1 then (if is_nil (il_fields il) then [] else [bs "type"])
-                           else map (fun s => 95 :: to_snake (sf_name s)) (filter sf_optional (il_fields il)))]
+    | Some il =>
+        match il_tree il with
+        | [] => if il_kind il =? 2 then []
+                else [map proto_name (map of_sfield (il_fields il))
+                      ++ (if il_kind il =? 1 then (if is_nil (il_fields il) then [] else [bs "type"])
+                          else map (fun s => 95 :: to_snake (sf_name s)) (filter sf_optional (il_fields il)))]
+        | tfs => tree_scopes (il_kind il) tfs
+        end
     | None => []
     end) fs.
 Definition msg_scopes (m : omsg) : list (list bytes) :=
